@@ -83,7 +83,7 @@ def typed(text, delim):
 def make_case(idx):
     R = rng('c14', idx)
     kind = R.choice(['ascii', 'mixed', 'mixed'])
-    words = ['foo', 'bar', 'Foo', 'a', 'ab', 'aaa', 'x', 'é', 'été', 'ب', '中', 'a1', '_', 'b']
+    words = ['foo', 'bar', 'Foo', 'a', 'ab', 'aaa', 'x', 'é', 'été', 'ب', '中', 'a1', '_', 'b', 'gag', 'g']
     nlines = R.randint(2, 6)
     lines = []
     for _ in range(nlines):
@@ -97,7 +97,7 @@ def make_case(idx):
         if k < 0.45:
             ast = mr.rand_ast(R, depth=R.choice([0, 1, 1, 2]), alphabet=['a', 'b', 'o', 'f', 'x', 'é', 'A', ' ', '1', 'F'])
         elif k < 0.7:
-            w = R.choice(['foo', 'a', 'ab', 'x', 'é', 'aa', 'o'] + (['a/b', '/', '|', '"', '[', ']', 'a|', ','] if idx % 4 == 0 else []))
+            w = R.choice(['foo', 'a', 'ab', 'x', 'é', 'aa', 'o', 'g', 'ag'] + (['a/b', '/', '|', '"', '[', ']', 'a|', ','] if idx % 4 == 0 else []))
             parts = []
             if R.random() < 0.3:
                 parts.append(('bol',))
@@ -118,7 +118,7 @@ def make_case(idx):
             ast = None          # empty pattern: reuse the previous one
             if prev_ast is None:
                 ast = ('lit', 'a')
-        rep = ''.join(R.choice(['X', 'yy', '\\0', '\\1', '\\2', '\\9', '\\\\', 'é', ' ', '', '[\\0]', '\\&', '&', '-', '中', '\\n', 'q'] + (['|', '"', '/', ',', 'x|y', '#', ':'] if idx % 4 == 0 else [])) for _ in range(R.randint(0, 3)))
+        rep = ''.join(R.choice(['X', 'yy', '\\0', '\\1', '\\2', '\\9', '\\\\', 'é', ' ', '', '[\\0]', '\\&', '&', '-', '中', '\\n', 'q', 'g', 'gg'] + (['|', '"', '/', ',', 'x|y', '#', ':'] if idx % 4 == 0 else [])) for _ in range(R.randint(0, 3)))
         g = R.random() < 0.55
         a = R.randint(1, nlines)
         b = R.randint(a, nlines)
